@@ -361,6 +361,28 @@ fn snapshot_unknown_symbol_dump() -> Option<String> {
     if found.is_empty() { None } else { Some(format!("Authorizer::from_raw_snapshot(generated fact with symbol id 999999) is Ok, then {}", found.join("; "))) }
 }
 
+/// C12: a third-party block naming a key prints the same source through the verified and the unverified API
+fn unverified_third_party_print() -> Option<String> {
+    use biscuit_auth::builder::BlockBuilder;
+    let root = KeyPair::new();
+    let k1 = KeyPair::new();
+    let k2 = KeyPair::new();
+    let ext = KeyPair::new();
+    let t = Biscuit::builder().fact("f(1)").unwrap().build(&root).unwrap();
+    // first-party block naming K1: the token key table is [K1]
+    let t = t.append(BlockBuilder::new().check(format!("check if f(1) trusting {}", k1.public()).as_str()).unwrap()).unwrap();
+    // third-party block naming K2 in its own key table
+    let req = t.third_party_request().unwrap();
+    let blk = req.create_block(&ext.private(), BlockBuilder::new().check(format!("check if f(1) trusting {}", k2.public()).as_str()).unwrap()).unwrap();
+    let t = t.append_third_party(ext.public(), blk).unwrap();
+    let bytes = t.to_vec().unwrap();
+    let verified = Biscuit::from(&bytes, root.public()).unwrap();
+    let unverified = UnverifiedBiscuit::from(&bytes).unwrap();
+    let a = verified.print_block_source(2).unwrap();
+    let b = unverified.print_block_source(2).unwrap();
+    if a != b { Some(format!("block 2 (third party) prints {:?} through Biscuit and {:?} through UnverifiedBiscuit", a.trim(), b.trim())) } else { None }
+}
+
 /// run `case` in a child process; report how it ended (a panic inside an extern "C" function aborts the process)
 fn in_child(case: &str) -> Result<String, String> {
     let exe = std::env::current_exe().unwrap();
@@ -503,6 +525,7 @@ fn main() {
         "snapshot_iteration_underflow" => snapshot_iteration_underflow(),
         "snapshot_iteration_overflow" => snapshot_iteration_overflow(),
         "closure_shadowing" => closure_shadowing(),
+        "unverified_third_party_print" => unverified_third_party_print(),
         "snapshot_unknown_symbol_dump" => snapshot_unknown_symbol_dump(),
         "nested_unbound_parameter" => nested_unbound_parameter(),
         "datalog_source_short_key" => datalog_source_short_key(),
